@@ -22,7 +22,7 @@ import numpy as np
 import pandas as pd
 from hypothesis import strategies as st
 
-from vf.learners import ScoreColumn
+from vf.learners import ScoreColumn, ScoreColumnMulti  # noqa: F401
 from vf.runner import PropertyViolation
 
 TOL = 1e-9
@@ -179,14 +179,17 @@ def fit(case):
     from fairlearn.postprocessing import ThresholdOptimizer
 
     X, y, sf, gs, ys, ss = build(case)
+    pm = case.get("pm", "predict")
+    # only the method the optimizer is told to use returns the generated scores; the estimator's other
+    # prediction methods answer on a reversed scale, so using another method at fit or predict time shows
     to = ThresholdOptimizer(
-        estimator=ScoreColumn(),
+        estimator=ScoreColumnMulti(primary="predict_proba" if pm == "auto" else pm),
         constraints=case["constraint"],
         objective=case["objective"],
         grid_size=case["grid"],
         flip=case["flip"],
         prefit=case.get("prefit", True),
-        predict_method=case.get("pm", "predict"),
+        predict_method=pm,
     )
     to.fit(X, y, sensitive_features=sf)
     pmf = to._pmf_predict(X, sensitive_features=sf)
@@ -276,6 +279,10 @@ _SCORES = {
     "tenths": st.integers(0, 10).map(lambda k: round(k / 10, 1)),
     "real": st.floats(-3, 3, allow_nan=False).map(lambda v: round(v, 3) + 0.0),
     "real01": st.floats(0, 1, allow_nan=False).map(lambda v: round(v, 3) + 0.0),
+    # distinct but very close levels (1e-7 apart, also at magnitude 1000): exactly representable midpoints
+    # exist, so every cut between them is a legitimate thresholding
+    "near": st.tuples(st.sampled_from([0.0, 0.5, 1.0]), st.integers(0, 3)).map(lambda t: t[0] + t[1] * 1e-7),
+    "near_large": st.tuples(st.sampled_from([1000.0, 1000.5]), st.integers(0, 3)).map(lambda t: t[0] + t[1] * 1e-6),
 }
 
 
@@ -289,7 +296,7 @@ def config(draw, accuracy_bias=False):
         "flip": draw(st.booleans()),
         "grid": draw(st.sampled_from(GRIDS)),
         "prefit": draw(st.booleans()),
-        "pm": draw(st.sampled_from(["predict", "decision_function", "auto"])),
+        "pm": draw(st.sampled_from(["predict", "decision_function", "auto", "predict_proba"])),
     }
 
 
